@@ -51,3 +51,239 @@ def _nonempty(shape: Any) -> bool:
         return 0 not in tuple(int(s) for s in shape)
     except TypeError:
         return True
+
+
+# --------------------------------------------------------------------------
+# access model for C11 (memory safety)
+
+class Unsupported11(Exception):
+    pass
+
+
+def _mangle(name: str) -> str:
+    import re
+    return "v_" + re.sub(r"[^A-Za-z0-9]", "_", name)
+
+
+def to_tla(e: Any, names: set[str]) -> str:
+    """pymbolic integer expression -> TLA+ text; raises Unsupported11 for
+    anything that is not (quasi-)affine integer arithmetic."""
+    import pymbolic.primitives as p
+    if isinstance(e, (bool, np.bool_)):
+        return "TRUE" if e else "FALSE"
+    if isinstance(e, (int, np.integer)):
+        return f"({int(e)})"
+    if isinstance(e, p.Variable):
+        names.add(e.name)
+        return _mangle(e.name)
+    if isinstance(e, p.Sum):
+        return "(" + " + ".join(to_tla(c, names) for c in e.children) + ")"
+    if isinstance(e, p.Product):
+        return "(" + " * ".join(to_tla(c, names) for c in e.children) + ")"
+    if isinstance(e, (p.FloorDiv, p.Remainder)):
+        num, den = to_tla(e.numerator, names), to_tla(e.denominator, names)
+        if isinstance(e.denominator, (int, np.integer)) and int(e.denominator) <= 0:
+            raise Unsupported11("non-positive constant divisor")
+        op = "\\div" if isinstance(e, p.FloorDiv) else "%"
+        return f"({num} {op} {den})"
+    if isinstance(e, p.Comparison):
+        op = {"==": "=", "!=": "#", "<": "<", "<=": "<=", ">": ">", ">=": ">="}[e.operator]
+        return f"({to_tla(e.left, names)} {op} {to_tla(e.right, names)})"
+    if isinstance(e, p.LogicalAnd):
+        return "(" + " /\\ ".join(to_tla(c, names) for c in e.children) + ")"
+    if isinstance(e, p.LogicalOr):
+        return "(" + " \\/ ".join(to_tla(c, names) for c in e.children) + ")"
+    if isinstance(e, p.LogicalNot):
+        return f"(~{to_tla(e.child, names)})"
+    if isinstance(e, p.If):
+        return (f"(IF {to_tla(e.condition, names)} THEN {to_tla(e.then, names)} "
+                f"ELSE {to_tla(e.else_, names)})")
+    if isinstance(e, p.Min):
+        a, b = (to_tla(c, names) for c in e.children)
+        return f"(IF {a} <= {b} THEN {a} ELSE {b})"
+    if isinstance(e, p.Max):
+        a, b = (to_tla(c, names) for c in e.children)
+        return f"(IF {a} >= {b} THEN {a} ELSE {b})"
+    raise Unsupported11(type(e).__name__)
+
+
+def divisors_of(e: Any) -> list[Any]:
+    """non-constant divisors of floor-div / modulo inside e (must be > 0)"""
+    import pymbolic.primitives as p
+    out: list[Any] = []
+
+    def walk(x: Any) -> None:
+        if isinstance(x, (p.FloorDiv, p.Remainder)):
+            if not isinstance(x.denominator, (int, np.integer)):
+                out.append(x.denominator)
+            walk(x.numerator)
+            walk(x.denominator)
+        elif isinstance(x, (p.Sum, p.Product, p.LogicalAnd, p.LogicalOr, p.Min, p.Max)):
+            for c in x.children:
+                walk(c)
+        elif isinstance(x, p.Comparison):
+            walk(x.left)
+            walk(x.right)
+        elif isinstance(x, p.If):
+            walk(x.condition)
+            walk(x.then)
+            walk(x.else_)
+        elif isinstance(x, p.LogicalNot):
+            walk(x.child)
+    walk(e)
+    return out
+
+
+def access_model(t_unit: Any, kid: str) -> dict:
+    """Every array access of the kernel with its index expressions, the extent
+    of the accessed array, the guard context (conditions of enclosing If
+    branches) and the iteration domain, as TLA+ text.  Data-dependent index
+    components are skipped (the caller's responsibility, as documented)."""
+    import loopy as lp
+    import pymbolic.primitives as p
+    from loopy.symbolic import Reduction, constraint_to_cond_expr
+    knl = t_unit.default_entrypoint
+    if knl.substitutions:
+        knl = lp.expand_subst(knl)
+    shapes: dict[str, tuple] = {}
+    for a in knl.args:
+        if isinstance(a, lp.ArrayArg) and isinstance(a.shape, tuple):
+            shapes[a.name] = a.shape
+    for name, tv in knl.temporary_variables.items():
+        if isinstance(tv.shape, tuple):
+            shapes[name] = tv.shape
+    params = sorted(a.name for a in knl.args if isinstance(a, lp.ValueArg))
+    # single-assignment scalar temporaries (reduction bounds)
+    scalar_def: dict[str, Any] = {}
+    writers: dict[str, int] = {}
+    for insn in knl.instructions:
+        for w in (insn.assignee_var_names() if hasattr(insn, "assignee_var_names") else []):
+            writers[w] = writers.get(w, 0) + 1
+    for insn in knl.instructions:
+        if isinstance(insn, lp.Assignment) and isinstance(insn.assignee, p.Variable) \
+                and writers.get(insn.assignee.name) == 1 \
+                and knl.temporary_variables.get(insn.assignee.name) is not None \
+                and knl.temporary_variables[insn.assignee.name].shape == ():
+            scalar_def[insn.assignee.name] = insn.expression
+
+    def subst_scalars(e: Any, depth: int = 0) -> Any:
+        from pymbolic.mapper.substitutor import substitute
+        if depth > 4 or not scalar_def:
+            return e
+        return substitute(e, dict(scalar_def))
+
+    obligations: list[dict] = []
+    lo_hi: dict[str, list] = {}
+    stats = {"accesses": 0, "index_components": 0, "data_dependent_components": 0,
+             "unsupported_components": 0}
+
+    def domain_conds(inames: frozenset) -> list[list[Any]] | None:
+        """-> list (disjunction) of lists (conjunction) of pymbolic conditions"""
+        if not inames:
+            return [[]]
+        dom = knl.get_inames_domain(inames)
+        out = []
+        for bs in dom.get_basic_sets():
+            conds = []
+            for c in bs.get_constraints():
+                conds.append(constraint_to_cond_expr(c))
+                # constant bounds of single variables (used to size TLC's ranges)
+                try:
+                    co = {k: int(str(v)) for k, v in c.get_coefficients_by_name().items()}
+                    vs = [k for k in co if k != 1 and co[k] != 0]
+                    if len(vs) == 1 and abs(co[vs[0]]) == 1 and not c.is_equality():
+                        k0 = co.get(1, 0)
+                        if co[vs[0]] == 1:
+                            lo_hi.setdefault(vs[0], [None, None])[0] = -k0
+                        else:
+                            lo_hi.setdefault(vs[0], [None, None])[1] = k0
+                except Exception:      # noqa: BLE001
+                    pass
+            out.append(conds)
+        return out
+
+    def handle_access(sub: Any, guards: list[Any], inames: frozenset, insn_id: str,
+                      role: str) -> None:
+        if not isinstance(sub.aggregate, p.Variable) or sub.aggregate.name not in shapes:
+            return
+        arr = sub.aggregate.name
+        shape = shapes[arr]
+        stats["accesses"] += 1
+        idx = sub.index_tuple
+        if len(idx) != len(shape):
+            obligations.append({"id": f"{kid}|{insn_id}|{arr}|arity", "static_fail":
+                                f"{len(idx)} indices for {len(shape)} axes"})
+            return
+        doms = domain_conds(inames)
+        for ax, (ie, ext) in enumerate(zip(idx, shape)):
+            stats["index_components"] += 1
+            names: set[str] = set()
+            try:
+                ie2 = subst_scalars(ie)
+                it = to_tla(ie2, names)
+                et = to_tla(ext, names) if not isinstance(ext, (int, np.integer)) \
+                    else f"({int(ext)})"
+                gts = [to_tla(subst_scalars(g), names) for g in guards]
+                divs = [to_tla(subst_scalars(d), names) for d in divisors_of(ie2)]
+                dts = [[to_tla(subst_scalars(c), names) for c in conj] for conj in doms]
+            except Unsupported11 as ex:
+                if str(ex) in ("Subscript", "Call"):
+                    stats["data_dependent_components"] += 1
+                else:
+                    stats["unsupported_components"] += 1
+                    stats.setdefault("unsupported_kinds", {})
+                    stats["unsupported_kinds"][str(ex)] = \
+                        stats["unsupported_kinds"].get(str(ex), 0) + 1
+                continue
+            except Exception:      # noqa: BLE001
+                stats["unsupported_components"] += 1
+                continue
+            obligations.append({
+                "id": f"{kid}|{insn_id}|{role}:{arr}[{ax}]",
+                "vars": sorted(names), "params": [q for q in params if q in names],
+                "domain": dts, "guards": gts, "divisors": divs,
+                "ranges": {v: lo_hi[v] for v in names if v in lo_hi
+                           and None not in lo_hi[v]},
+                "index": it, "extent": et, "text": f"{arr}[... {ie} ...] axis {ax} "
+                                                   f"extent {ext} guards {guards}"})
+
+    def walk(e: Any, guards: list[Any], inames: frozenset, insn_id: str) -> None:
+        if isinstance(e, p.Subscript):
+            handle_access(e, guards, inames, insn_id, "read")
+            for i in e.index_tuple:
+                walk(i, guards, inames, insn_id)
+        elif isinstance(e, p.If):
+            walk(e.condition, guards, inames, insn_id)
+            walk(e.then, [*guards, e.condition], inames, insn_id)
+            walk(e.else_, [*guards, p.LogicalNot(e.condition)], inames, insn_id)
+        elif isinstance(e, Reduction):
+            walk(e.expr, guards, inames | frozenset(e.inames), insn_id)
+        elif isinstance(e, (p.Sum, p.Product, p.LogicalAnd, p.LogicalOr, p.Min, p.Max,
+                            p.BitwiseAnd, p.BitwiseOr, p.BitwiseXor)):
+            for c in e.children:
+                walk(c, guards, inames, insn_id)
+        elif isinstance(e, (p.Quotient, p.FloorDiv, p.Remainder)):
+            walk(e.numerator, guards, inames, insn_id)
+            walk(e.denominator, guards, inames, insn_id)
+        elif isinstance(e, p.Power):
+            walk(e.base, guards, inames, insn_id)
+            walk(e.exponent, guards, inames, insn_id)
+        elif isinstance(e, p.Comparison):
+            walk(e.left, guards, inames, insn_id)
+            walk(e.right, guards, inames, insn_id)
+        elif isinstance(e, p.LogicalNot):
+            walk(e.child, guards, inames, insn_id)
+        elif isinstance(e, p.Call):
+            for q in e.parameters:
+                walk(q, guards, inames, insn_id)
+        elif hasattr(e, "child") and isinstance(e, p.ExpressionNode):
+            walk(e.child, guards, inames, insn_id)         # TypeCast and the like
+
+    for insn in knl.instructions:
+        if not isinstance(insn, lp.Assignment):
+            continue
+        inames = frozenset(insn.within_inames)
+        if isinstance(insn.assignee, p.Subscript):
+            handle_access(insn.assignee, [], inames, insn.id, "write")
+        walk(insn.expression, [], inames, insn.id)
+    return {"id": kid, "obligations": obligations, "stats": stats, "params": params}
